@@ -135,8 +135,17 @@ func (k Keeper) CalculateBatchAllocation(ctx context.Context, auction types.Auct
 		mInfo.RefundMap[bidder] = reservedAmtByBidder[bidder].Sub(bidderRes.PayingAmount)
 	}
 
+	// Flag exactly the bids matched by this calculation. A bid that was matched at a
+	// previous end time but is outbid now must lose its flag.
+	matchedBidIds := map[uint64]bool{}
 	for _, bid := range matchRes.MatchedBids {
-		bid.SetMatched(true)
+		matchedBidIds[bid.Id] = true
+	}
+	for _, bid := range bids {
+		if bid.IsMatched == matchedBidIds[bid.Id] {
+			continue
+		}
+		bid.SetMatched(matchedBidIds[bid.Id])
 		if err := k.Bid.Set(ctx, collections.Join(bid.AuctionId, bid.Id), bid); err != nil {
 			return mInfo, err
 		}
